@@ -203,11 +203,13 @@ class Beam(_Simu):
             return
 
         # Euler-Bernoulli: transverse v/w use Hermitian shape functions (couple
-        # force and moment DOFs); axial / torsion / pure-rotation DOFs use the
-        # Lagrange path from the base class.
+        # force and moment DOFs), axial / torsion use Lagrange ones. The unknowns are the
+        # global components: on an inclined beam the global x direction has a transverse
+        # part, so every component goes through the beam's shape function matrix (its rows,
+        # rotated to the global frame below, hold the right mix of both families).
         beamStructure = self.structure
         all_unknowns = self.Get_unknowns(problemType)
-        hermitian = set(all_unknowns) - {"x", "rx"}
+        hermitian = set(all_unknowns)
         lagrange_idx = [i for i, u in enumerate(unknowns) if u not in hermitian]
         hermitian_idx = [i for i, u in enumerate(unknowns) if u in hermitian]
 
